@@ -20,24 +20,27 @@ Window == {c \in Days : DayNum(c[1], c[2], c[3]) \in DayNum(2020, 1, 15)..(DayNu
 Build(kx, kp, c, e, w, tod, rtod, o, ku, uo, uu, uk, ka, a1, a2, a3, f3, op, kk, b2) ==
   LET day == IF kx % 7 = 0 THEN e ELSE IF kx <= 30 THEN c ELSE IF kx % 4 = 0 THEN c ELSE w
       ms  == IF kp % 3 = 0 THEN rtod ELSE tod
-      x   == IF kx <= 30 THEN MkDate(1 + kp % 3, day[1], day[2], day[3])
-             ELSE IF kx <= 80 THEN MkDT(1 + kp % 7, day[1], day[2], day[3], ms, o)
-             ELSE MkTime(4 + kp % 4, ms)
+      x   == IF kx <= 30 THEN MkDate(1 + (kp % 3), day[1], day[2], day[3])
+             ELSE IF kx <= 80 THEN MkDT(1 + (kp % 7), day[1], day[2], day[3], ms, o)
+             ELSE MkTime(4 + (kp % 4), ms)
       u   == IF ku = 1 THEN uo ELSE IF ku <= 5 THEN uu ELSE uk
       th  == IF ka <= 6 THEN a1 ELSE IF ka <= 8 THEN a2 * 500 ELSE a3 * 1000 + f3
       th2 == IF ka <= 6 THEN b2 ELSE th + (b2 \div 1000) * 500
       kind == IF kk <= 14 THEN "ar" ELSE IF kk <= 17 THEN "inv" ELSE "cmp"
   IN [kind |-> kind, x |-> x, op |-> op, q |-> Qty(th, u), q2 |-> IF kind = "cmp" THEN Qty(th2, u) ELSE Qty(th, u)]
 
+(* state-level on purpose: TLC evaluates constant-level expressions once *)
+Rnd(Pool) == RandomElement(IF cs.kind = "none" THEN {} ELSE Pool)
+
 Init == cs = Start
 Next ==
-  \E kx \in {RandomElement(1..100)}, kp \in {RandomElement(0..83)}, c \in {RandomElement(Days)}, e \in {RandomElement(EdgeDays)},
-     w \in {RandomElement(Window)}, tod \in {RandomElement(DayTimes)}, rtod \in {RandomElement(0..86399999)},
-     o \in {RandomElement(Offsets)}, ku \in {RandomElement(1..20)}, uo \in {RandomElement(OtherUnits)},
-     uu \in {RandomElement(UcumUnits)}, uk \in {RandomElement(KeywordUnits)}, ka \in {RandomElement(1..10)},
-     a1 \in {RandomElement(Amounts)}, a2 \in {RandomElement(-3000..3000)}, a3 \in {RandomElement(1..2000)},
-     f3 \in {RandomElement({0, 1, 250, 500, 999})}, op \in {RandomElement({"+", "-"})}, kk \in {RandomElement(1..20)},
-     b2 \in {RandomElement(Amounts)} :
+  \E kx \in {Rnd(1..100)}, kp \in {Rnd(0..83)}, c \in {Rnd(Days)}, e \in {Rnd(EdgeDays)},
+     w \in {Rnd(Window)}, tod \in {Rnd(DayTimes)}, rtod \in {Rnd(0..86399999)},
+     o \in {Rnd(Offsets)}, ku \in {Rnd(1..20)}, uo \in {Rnd(OtherUnits)},
+     uu \in {Rnd(UcumUnits)}, uk \in {Rnd(KeywordUnits)}, ka \in {Rnd(1..10)},
+     a1 \in {Rnd(Amounts)}, a2 \in {Rnd(-3000..3000)}, a3 \in {Rnd(1..2000)},
+     f3 \in {Rnd({0, 1, 250, 500, 999})}, op \in {Rnd({"+", "-"})}, kk \in {Rnd(1..20)},
+     b2 \in {Rnd(Amounts)} :
        /\ cs' = Build(kx, kp, c, e, w, tod, rtod, o, ku, uo, uu, uk, ka, a1, a2, a3, f3, op, kk, b2)
        /\ PrintT(ToJson(Emit(cs')))
 Spec == Init /\ [][Next]_cs
